@@ -247,7 +247,7 @@ class UpgradedParameter(_util.funcsigs.Parameter):
     def _upgrade(cls, inst, function, function_sources):
         if isinstance(inst, cls):
             return inst
-        sources = function_sources.get(inst.name, [])
+        sources = list(function_sources.get(inst.name, []))
         source_depths = {
             func: depth
             for func, depth in function_sources.get("+depths", {}).items()
